@@ -13,13 +13,20 @@ RULE = ("values = concatenations of tokens from { '{', '}', '\"', '\\\\', 'a', '
         "strings; streams: strip (function level), enclose (function level x metadata x options), pipe (one-field entry or "
         "@string through RemoveEnclosing -> AddEnclosing(options) -> write_string -> parse_string) x default_enclosing x reuse "
         "x enclose_integers x field key in/out of ENTRY_POTENTIALLY_INT_FIELDS, ints, shapes (random small libraries with "
-        "odd value types and metadata). distinct = distinct (stream, value, options); non-trivial = the value has a "
-        "delimiter as first or last character after stripping, or is integer-like, or the case is a library shape")
+        "odd value types and metadata), user classes (uc-strip / uc-enclose: the function level on str / int SUBCLASS "
+        "instances (StrSub, IntSub, IntEnum members); uc-lib: small libraries of Entry subclasses (trivial subclass, "
+        "defensive-copy `fields` view), String / comment / preamble subclasses, Field subclasses, str-subclass field keys and "
+        "str / int subclass values in numeric and other fields, through step sequences of both middlewares in in-place and "
+        "copy mode, with the re-parse clause on every eligible entry). distinct = distinct (stream, value, options); "
+        "non-trivial = the value has a delimiter as first or last character after stripping, or is integer-like, or the "
+        "case is a library shape / user-class case")
 TRUSTED = ["the 're-parsed is one field with the same content' clause is checked by the Python oracle only (real write_string "
            "/ parse_string); the Coq theorem composing AddEnclosing with the splitter model is stated in the splitter engine",
            "str.isdigit / str.isspace enter the model as per-character flags computed by the running CPython"]
 ASSUMPTIONS = ["CPython's str.strip / str.isdigit are oracles (flags); f-string formatting of str and int only "
-               "(other value types reaching _enclose are outside the model and reported as skipped)"]
+               "(other value types reaching _enclose are outside the model and reported as skipped)",
+               "user-class cases reach the model through their base-class view (a SubEntry is encoded as the Entry it is, an "
+               "IntSub as the int it is): the model compares contents, the Python oracle additionally the classes"]
 
 TOKENS = ["{", "}", '"', "\\", "a", " ", "#", ",", "1", "@b{"]
 NUMERIC_KEY, PLAIN_KEY = "year", "title"
@@ -89,6 +96,107 @@ def gen_shape_meta(rng, spec):
     return [["removed_enclosing", "{"]]
 
 
+# ---------------------------------------------------------------- user classes (subclass instances of the public classes)
+# value spec extensions: {"strsub": s} / {"intsub": n} / {"monthenum": 1..12}; a field is [key, value, line, is_subfield]
+# with key a str or {"strsub": s}; a block carries "cls": "plain" | "sub" | "copyfields" (entries only)
+UC_STEPS = ["r", "a", "a", "ra", "ra", "rar", "rr", "ar"]
+UC_KEYS_NUM = NUMERIC_FIELDS
+UC_KEYS_OTHER = ["title", "author", "note", "Year", "yearx", "MONTH"]
+UC_MD = ["absent", None, "{", '"', "no-enclosing", "bogus"]
+
+
+def _uc_str_pool(rng):
+    pool = list(WITNESSES) + DIGIT_STRS + ["c", "{", " {x} ", "{{n}}", "\\", "12", "2024", "0"] + list(all_values(1))
+    return pool + sample_values(rng, 2, 4, 150)
+
+
+def gen_uc_value(rng, pool, numeric_key, want_int):
+    """a str / int value, most of the time as an instance of a user subclass"""
+    r = rng.random()
+    if r < want_int:
+        k = rng.random()
+        if k < 0.4:
+            return {"intsub": rng.choice(INTS + [1, 12, 2024])}
+        if k < 0.75:
+            return {"monthenum": rng.randint(1, 12)}
+        return {"int": rng.choice(INTS + [3])}
+    if numeric_key and rng.random() < 0.45:
+        v = rng.choice(DIGIT_STRS + ["2024", "{1990}", '"12"', " 7 ", "{٣}"])
+    else:
+        v = rng.choice(pool)
+    return {"strsub": v} if rng.random() < 0.65 else v
+
+
+def gen_uc_library(rng, pool):
+    steps = rng.choice(UC_STEPS)
+    want_int = 0.05 if steps[0] == "r" else 0.4
+    specs = []
+    n = rng.choice([1, 1, 1, 2, 2, 3])
+    for i in range(n):
+        r = rng.random()
+        sl = rng.choice([None, i, 3 * i + 1])
+        raw = rng.choice([None, "@raw%d{...}" % i])
+        if r < 0.68:
+            nf = rng.choice([0, 1, 1, 1, 2, 2, 3])
+            fields = []
+            for j in range(nf):
+                num = rng.random() < 0.55
+                k = rng.choice(UC_KEYS_NUM if num else UC_KEYS_OTHER)
+                key = {"strsub": k} if rng.random() < 0.2 else k
+                fields.append([key, gen_uc_value(rng, pool, num, want_int), rng.choice([None, j + 1]), rng.random() < 0.5])
+            s = {"t": "entry", "cls": rng.choice(["plain", "sub", "sub", "sub", "copyfields", "copyfields", "copyfields"]),
+                 "type": rng.choice(["article", "book"]), "key": "k%d" % i, "fields": fields, "sl": sl, "raw": raw}
+            if rng.random() < 0.45:
+                d = [[f[0] if isinstance(f[0], str) else f[0]["strsub"], rng.choice(["{", '"', "no-enclosing", None])]
+                     for f in fields if rng.random() < 0.8]
+                s["meta"] = ([["other_mw", "x"]] if rng.random() < 0.3 else []) + [["removed_enclosing", {"dict": d}]]
+        elif r < 0.9:
+            s = {"t": "string", "cls": rng.choice(["plain", "sub", "sub"]), "key": "s%d" % i,
+                 "value": gen_uc_value(rng, pool, rng.random() < 0.3, want_int * 0.5), "sl": sl, "raw": raw}
+            if rng.random() < 0.4:
+                s["meta"] = [["removed_enclosing", rng.choice(["{", '"', "no-enclosing", None])]]
+        else:
+            s = {"t": rng.choice(["preamble", "expl", "impl"]), "cls": "sub", "text": rng.choice(["{p}", '"c"', " x "]),
+                 "sl": sl, "raw": raw}
+        specs.append(s)
+    return {"kind": "uc-lib", "lib": specs, "steps": steps, "cfg": rng.choice(CFGS), "inplace": rng.random() < 0.5}
+
+
+def gen_uc_cases(rng, quick):
+    cases = []
+    # function level: _strip_enclosing on str-subclass instances
+    svals = list(all_values(2 if quick else 3)) + WITNESSES + sample_values(rng, 3, 5, 300 if quick else 5000)
+    for v in svals:
+        cases.append({"stream": "uc-strip", "input": {"kind": "strip", "value": {"strsub": v}}})
+    # function level: _enclose on int / str subclass instances x options x metadata x integer rule
+    evals = ([{"intsub": n} for n in INTS] + [{"monthenum": m} for m in (1, 9, 12)] + [{"strsub": v} for v in DIGIT_STRS]
+             + [{"strsub": v} for v in all_values(1)][1:])
+    for v in evals:
+        for cfg in CFGS:
+            for air in (False, True):
+                for m in (UC_MD if quick else MD_CHOICES):
+                    cases.append({"stream": "uc-enclose", "input": {"kind": "enclose", "cfg": cfg, "value": v, "md": m, "air": air}})
+    # the integer rule, systematically: int-subclass values and str-subclass digit strings as the one field of an Entry
+    # subclass x every numeric key and near misses x all options x both modes (AddEnclosing alone, and after a removal)
+    for cfg in CFGS:
+        for key in NUMERIC_FIELDS + [PLAIN_KEY, "Year", "yearx"]:
+            for cls in ("sub", "copyfields"):
+                for inplace in (False, True):
+                    for steps, v in (("a", {"intsub": rng.choice(INTS + [1, 12, 2024])}), ("a", {"monthenum": rng.randint(1, 12)}),
+                                     ("a", {"strsub": rng.choice(["1990", "007", "12", "0"])}),
+                                     ("ra", {"strsub": rng.choice(["1990", "{1990}", '"12"', " 7 ", "١٢"])})):
+                        k = {"strsub": key} if rng.random() < 0.25 else key
+                        ent = {"t": "entry", "cls": cls, "type": "article", "key": "k", "sl": 0, "raw": "@article{k}",
+                               "fields": [[k, v, 1, rng.random() < 0.5]]}
+                        cases.append({"stream": "uc-ints", "input": {"kind": "uc-lib", "lib": [ent], "steps": steps, "cfg": cfg,
+                                                                     "inplace": inplace}})
+    # libraries of subclass instances through the middlewares, both modes
+    pool = _uc_str_pool(rng)
+    for _ in range(2500 if quick else 40000):
+        cases.append({"stream": "uc-lib", "input": gen_uc_library(rng, pool)})
+    return cases
+
+
 def generate(rng, tier):
     quick = tier == "quick"
     cases = []
@@ -139,12 +247,14 @@ def generate(rng, tier):
         specs = libspec.gen_library(rng, gen_shape_value, meta_gen=gen_shape_meta)
         steps = rng.choice(["r", "a", "ra", "rar", "rr"])
         cases.append({"stream": "shapes", "input": {"kind": "shape", "lib": specs, "steps": steps, "cfg": rng.choice(CFGS)}})
+    # -- user classes (generated last: the streams above are the same as before for a given seed)
+    cases.extend(gen_uc_cases(rng, quick))
     return cases
 
 
 def shrink(case):
     inp = case["input"]
-    if inp["kind"] == "shape":
+    if inp["kind"] in ("shape", "uc-lib"):
         for lib in libspec.shrink_library(inp["lib"]):
             yield {"stream": case["stream"], "input": dict(inp, lib=lib)}
         for k in range(len(inp["steps"])):
@@ -154,6 +264,10 @@ def shrink(case):
         v = inp["value"]
         for i in range(len(v)):
             yield {"stream": case["stream"], "input": dict(inp, value=v[:i] + v[i + 1:])}
+    elif isinstance(inp.get("value"), dict) and "strsub" in inp["value"]:
+        v = inp["value"]["strsub"]
+        for i in range(len(v)):
+            yield {"stream": case["stream"], "input": dict(inp, value={"strsub": v[:i] + v[i + 1:]})}
 
 
 # ---------------------------------------------------------------- the property, in Python, independent of the code
@@ -311,6 +425,62 @@ def same(a, b):
     return type(a) is type(b) and a == b
 
 
+def text_eq(got, exp):
+    """got is a str (of whatever class) with exactly the characters of the plain str exp"""
+    return isinstance(got, str) and str.__eq__(got, exp) is True
+
+
+def same_as(got, exp, orig):
+    """`got` is what the property demands (`exp`, computed on the plain content) of a value that was the object `orig`:
+    plain str / int originals as before (exact class); for subclass instances a text must have exactly the demanded
+    characters, and an integer that stays as it is must still be an integer of the class it had, with the same number"""
+    if type(orig) in (str, int):
+        return same(got, exp)
+    if isinstance(exp, str):
+        return text_eq(got, exp)
+    return type(got) is type(orig) and not isinstance(got, bool) and int.__eq__(got, exp) is True
+
+
+def plain_of(v):
+    """the plain content of a str / int (subclass) instance"""
+    if type(v) in (str, int) or isinstance(v, bool):
+        return v
+    if isinstance(v, str):
+        return "".join(str.__getitem__(v, i) for i in range(str.__len__(v)))
+    if isinstance(v, int):
+        return int.__int__(v)
+    return v
+
+
+def uc_unjv(v):
+    """value spec -> object, with the user-class extensions"""
+    if isinstance(v, dict) and ("strsub" in v or "intsub" in v or "monthenum" in v):
+        from props import userclasses
+        uc = userclasses.get()
+        if "strsub" in v:
+            return uc.StrSub(v["strsub"])
+        if "intsub" in v:
+            return uc.IntSub(v["intsub"])
+        return uc.MonthEnum(v["monthenum"])
+    return unjv(v)
+
+
+def uc_plain_spec(v):
+    """value spec with user classes -> the libspec value spec of its plain content"""
+    if isinstance(v, dict):
+        if "strsub" in v:
+            return v["strsub"]
+        if "intsub" in v:
+            return {"int": v["intsub"]}
+        if "monthenum" in v:
+            return {"int": v["monthenum"]}
+    return v
+
+
+def uc_kind(v):
+    return next((k for k in ("strsub", "intsub", "monthenum") if isinstance(v, dict) and k in v), None)
+
+
 # ---------------------------------------------------------------- implementation side
 def _cfg_sx(cfg):
     import enc
@@ -328,16 +498,29 @@ def _mk_add(cfg):
 
 def impl(case):
     inp = case["input"]
-    return {"strip": impl_strip, "enclose": impl_enclose, "pipe": impl_pipe, "shape": impl_shape}[inp["kind"]](case)
+    return {"strip": impl_strip, "enclose": impl_enclose, "pipe": impl_pipe, "shape": impl_shape,
+            "uc-lib": impl_uc_lib}[inp["kind"]](case)
+
+
+def _show(spec):
+    """a value spec in messages: plain values by repr, user-class values with their class"""
+    k = uc_kind(spec)
+    return repr(spec) if k is None else "%s(%r)" % ({"strsub": "StrSub", "intsub": "IntSub", "monthenum": "MonthEnum"}[k], spec[k])
+
+
+def _show_obj(o):
+    return repr(o) if type(o) in (str, int, bool, type(None)) else "<%s %r>" % (type(o).__name__, o)
 
 
 def impl_strip(case):
     import enc
     import implutil
     from bibtexparser.middlewares.enclosing import RemoveEnclosingMiddleware as R
-    v = case["input"]["value"]
-    rec = {"sx_in": [100, enc.enc_str(v)], "key": json.dumps(["strip", v])}
-    r = implutil.guarded(lambda: R._strip_enclosing(v))
+    spec = case["input"]["value"]
+    arg = uc_unjv(spec)                                     # a str, or an instance of a str subclass
+    v = plain_of(arg)
+    rec = {"sx_in": [100, enc.enc_str(v)], "key": json.dumps(["strip", spec])}
+    r = implutil.guarded(lambda: R._strip_enclosing(arg))
     sv = v.strip()
     rec["nontrivial"] = bool(sv) and (sv[0] in '{"' or sv[-1] in '}"')
     if r[0] == "exc":
@@ -349,17 +532,17 @@ def impl_strip(case):
     rec["sx_out"] = implutil.r_ok([enc.enc_str(w), enc.enc_str(e)])
     op = outer_pair(sv)
     exp = (op[1], op[0]) if op else (sv, "no-enclosing")
-    ok = same(w, exp[0]) and same(e, exp[1])
-    detail = "" if ok else "_strip_enclosing(%r) = %r, the property demands %r" % (v, (w, e), exp)
+    ok = same_as(w, exp[0], arg) and same_as(e, exp[1], arg)
+    detail = "" if ok else "_strip_enclosing(%s) = %r, the property demands %r" % (_show(spec), (w, e), exp)
     if ok:
         # adding back with reuse restores the (stripped) original exactly
         from bibtexparser.middlewares.enclosing import AddEnclosingMiddleware
         for d in ("{", '"'):
             back = AddEnclosingMiddleware(True, False, d)._enclose(w, e, apply_int_rule=True)
-            if not same(back, sv):
-                ok, detail = False, "reuse does not restore %r: strip gave %r, adding back gave %r" % (sv, (w, e), back)
+            if not same_as(back, sv, arg):
+                ok, detail = False, "reuse does not restore %s: strip gave %r, adding back gave %r" % (_show(spec), (w, e), back)
     rec["oracle"] = {"ok": ok, "detail": detail}
-    rec["tags"] = ["strip:" + (op[0] if op else "none")]
+    rec["tags"] = ["strip:" + (op[0] if op else "none")] + (["uc:value:" + uc_kind(spec)] if uc_kind(spec) else [])
     rec["summary"] = repr((w, e))
     return rec
 
@@ -369,13 +552,14 @@ def impl_enclose(case):
     import implutil
     inp = case["input"]
     cfg, air = inp["cfg"], inp["air"]
-    v = unjv(inp["value"])
+    arg = uc_unjv(inp["value"])                             # possibly an instance of a str / int subclass
+    v = plain_of(arg)
     md_abs = inp["md"] == "absent"
     md = None if md_abs else unjv(inp["md"])
     mw = _mk_add(cfg)
     rec = {"sx_in": [101, _cfg_sx(cfg), enc.enc_value(v), [] if md_abs else [enc.enc_value(md)], int(air)],
            "key": json.dumps(["enclose", inp["value"], cfg, inp["md"], air])}
-    r = implutil.guarded(lambda: mw._enclose(v, md, apply_int_rule=air))
+    r = implutil.guarded(lambda: mw._enclose(arg, md, apply_int_rule=air))
     rec["nontrivial"] = is_integer_like(v) or (isinstance(v, str) and v != "" and v[0] in '{"')
     specified = isinstance(v, str) or (isinstance(v, int) and not isinstance(v, bool))
     exp = expected_enclose(cfg, v, md if not md_abs else "absent", air) if specified else None
@@ -385,19 +569,21 @@ def impl_enclose(case):
         # an unknown reused metadata enclosing is documented to raise ValueError; nothing else may raise
         legit = r[2] == "ValueError" and cfg[0] and md is not None and not (isinstance(md, str) and md in ("{", '"', "no-enclosing"))
         bad = specified and not legit
-        rec["oracle"] = {"ok": not bad, "detail": "" if not bad else "_enclose(%r, %r, %r) with %r raised %s" % (v, md, air, cfg, r[2])}
-        rec["tags"] = ["enclose:raise"]
+        rec["oracle"] = {"ok": not bad, "detail": "" if not bad else "_enclose(%s, %r, %r) with %r raised %s" % (
+            _show(inp["value"]), md, air, cfg, r[2])}
+        rec["tags"] = ["enclose:raise"] + (["uc:value:" + uc_kind(inp["value"])] if uc_kind(inp["value"]) else [])
         return rec
     out = r[1]
     rec["sx_out"] = implutil.r_ok(enc.enc_value(out))
     ok, detail = True, ""
-    if specified and exp is not None and not same(out, exp):
-        ok, detail = False, "_enclose(%r, md=%r, int_rule=%r) with (reuse, enclose_integers, default)=%r gave %r, expected %r" % (
-            v, md, air, cfg, out, exp)
+    if specified and exp is not None and not same_as(out, exp, arg):
+        ok, detail = False, "_enclose(%s, md=%r, int_rule=%r) with (reuse, enclose_integers, default)=%r gave %r, expected %r" % (
+            _show(inp["value"]), md, air, cfg, _show_obj(out), exp)
     if specified and exp is None:
         ok, detail = False, "unknown metadata enclosing %r accepted: %r" % (md, out)
     rec["oracle"] = {"ok": ok, "detail": detail}
-    rec["tags"] = ["enclose:" + ("int" if is_integer_like(v) else "other")]
+    rec["tags"] = ["enclose:" + ("int" if is_integer_like(v) else "other")] + (
+        ["uc:value:" + uc_kind(inp["value"])] if uc_kind(inp["value"]) else [])
     rec["summary"] = repr(out)
     return rec
 
@@ -566,4 +752,197 @@ def impl_shape(case):
     rec["oracle"] = {"ok": ok, "detail": detail}
     rec["tags"] = ["shape:ok"]
     rec["summary"] = repr(after)[:200]
+    return rec
+
+
+# ---------------------------------------------------------------- user-class libraries
+def _uc_build_block(spec):
+    """the block of a uc-lib spec: built as the plain class, then rebuilt as the user's subclass"""
+    from bibtexparser import model as M
+    from props import userclasses
+    uc = userclasses.get()
+    t, sl, raw = spec["t"], spec.get("sl"), spec.get("raw")
+    if t == "entry":
+        fields = [(uc.SubField if sub else M.Field)(uc_unjv(k), uc_unjv(v), ln) for k, v, ln, sub in spec["fields"]]
+        b = M.Entry(spec["type"], spec["key"], fields, start_line=sl, raw=raw)
+    elif t == "string":
+        b = M.String(spec["key"], uc_unjv(spec["value"]), start_line=sl, raw=raw)
+    else:
+        b = libspec.build_block({k: v for k, v in spec.items() if k != "meta"})
+    for k, v in spec.get("meta", []):
+        b.parser_metadata[k] = unjv(v)
+    cls = spec.get("cls", "plain")
+    return uc.as_sub(b) if cls == "sub" else uc.as_copyfields(b) if cls == "copyfields" else b
+
+
+def _enc_block_base(b):
+    """enc.enc_block through the base-class view (enc looks at the exact class name): what the model can represent of a
+    subclass instance is the Entry / String / ... it is"""
+    import enc
+    from bibtexparser import model as M
+    h = enc.enc_hdr(b)
+    if isinstance(b, M.Entry):
+        return [enc.B_ENTRY, h, enc.enc_str(b.entry_type), enc.enc_str(b.key), [enc.enc_field(f) for f in b.fields]]
+    if isinstance(b, M.String):
+        return [enc.B_STRING, h, enc.enc_str(b.key), enc.enc_value(b.value)]
+    if isinstance(b, M.Preamble):
+        return [enc.B_PREAMBLE, h, enc.enc_str(b.value)]
+    if isinstance(b, M.ExplicitComment):
+        return [enc.B_EXPL, h, enc.enc_str(b.comment)]
+    if isinstance(b, M.ImplicitComment):
+        return [enc.B_IMPL, h, enc.enc_str(b.comment)]
+    return enc.enc_block(b, abstract_prev=True)
+
+
+def _uc_plain_block_spec(spec):
+    """the libspec block spec of the plain content (what ref_steps reads)"""
+    p = dict(spec)
+    if spec["t"] == "entry":
+        p["fields"] = [[uc_plain_spec(k), uc_plain_spec(v), ln] for k, v, ln, _ in spec["fields"]]
+    elif spec["t"] == "string":
+        p["value"] = uc_plain_spec(spec["value"])
+    return p
+
+
+def _uc_tags(inp):
+    tags = {"uc:mode:" + ("inplace" if inp["inplace"] else "copy")}
+    for s in inp["lib"]:
+        tags.add("uc:%s:%s" % (s["t"], s.get("cls", "plain")))
+        vs = []
+        if s["t"] == "entry":
+            for k, v, _, sub in s["fields"]:
+                vs.append(v)
+                if sub:
+                    tags.add("uc:field:sub")
+                if uc_kind(k):
+                    tags.add("uc:fieldkey:strsub")
+                plain_k = uc_plain_spec(k)
+                if uc_kind(v):
+                    tags.add("uc:%s-in-%s-field" % (uc_kind(v), "numeric" if plain_k in NUMERIC_FIELDS else "other"))
+        elif s["t"] == "string":
+            vs.append(s["value"])
+        for v in vs:
+            if uc_kind(v):
+                tags.add("uc:value:" + uc_kind(v))
+    return sorted(tags)
+
+
+def _struct(b):
+    return (type(b).__name__, getattr(b, "key", None), b.start_line, b.raw,
+            [(type(f).__name__, plain_of(f.key), f.start_line) for f in getattr(b, "fields", [])])
+
+
+def impl_uc_lib(case):
+    import implutil
+    import bibtexparser
+    from bibtexparser.library import Library
+    from bibtexparser.middlewares.enclosing import RemoveEnclosingMiddleware
+    import bibtexparser.middlewares.enclosing as E
+    inp = case["input"]
+    blocks = [_uc_build_block(s) for s in inp["lib"]]
+    steps, cfg, inplace = inp["steps"], inp["cfg"], inp["inplace"]
+    rec = {"sx_in": [102, _steps_sx(steps, cfg), [_enc_block_base(b) for b in blocks]],
+           "key": json.dumps(["uc-lib", inp["lib"], steps, cfg, inplace]), "nontrivial": True}
+    before = [_struct(b) for b in blocks]
+    tags = _uc_tags(inp)
+    strings_air = getattr(E, "STRINGS_CAN_BE_UNESCAPED_INTS", False)
+    plain = [_uc_plain_block_spec(s) for s in inp["lib"]]
+    refs = [ref_steps(p, steps, cfg, strings_air) if p["t"] in ("entry", "string") else "n/a" for p in plain]
+    # the property speaks about every step on every block of this library (no .strip() on an int, no second add in a row)
+    specified = all(r is not None for r in refs)
+
+    def run():
+        lib = Library(blocks)
+        for s in steps:
+            if s == "r":
+                lib = RemoveEnclosingMiddleware(allow_inplace_modification=inplace).transform(lib)
+            else:
+                from bibtexparser.middlewares.enclosing import AddEnclosingMiddleware
+                lib = AddEnclosingMiddleware(reuse_previous_enclosing=cfg[0], enclose_integers=cfg[1], default_enclosing=cfg[2],
+                                             allow_inplace_modification=inplace).transform(lib)
+        return lib
+    r = implutil.guarded(run)
+    if r[0] == "exc":
+        rec["sx_out"] = implutil.r_exc(r[1])
+        # .strip() of an int value is not the property's business; where the property gives every value, nothing may raise
+        rec["oracle"] = {"ok": not specified, "detail": "" if not specified else
+                         "enclosing middlewares (steps %r, options %r, %s mode) raised %s on user-class library %s" % (
+                             steps, cfg, "in-place" if inplace else "copy", r[2], json.dumps(inp["lib"], ensure_ascii=False))}
+        rec["tags"] = tags + ["uc-lib:raise:" + r[2]]
+        rec["summary"] = "raised " + r[2]
+        return rec
+    lib = r[1]
+    rec["sx_out"] = implutil.r_ok([_enc_block_base(b) for b in lib.blocks])
+    after = [_struct(b) for b in lib.blocks]
+    ok = before == after
+    detail = "" if ok else "block classes / keys / lines / raw / field classes / field keys changed: %r -> %r" % (before, after)
+    known = None
+    where = "(steps %r, options %r, %s mode)" % (steps, cfg, "in-place" if inplace else "copy")
+    if ok:
+        for spec, p, exp, b in zip(inp["lib"], plain, refs, lib.blocks):
+            if exp is None or exp == "n/a":
+                continue
+            vals, md = exp
+            if spec["t"] == "entry":
+                got, origs = [f.value for f in b.fields], [f[1] for f in spec["fields"]]
+            else:
+                got, origs = [b.value], [spec["value"]]
+            if len(got) != len(vals):
+                ok, detail = False, "%s %r has %d values, expected %d" % (spec["t"], spec["key"], len(got), len(vals))
+                break
+            for i, (e, g, o) in enumerate(zip(vals, got, origs)):
+                if e is not UNSPEC and not same_as(g, e, uc_unjv(o)):
+                    ok, detail = False, ("%s %r (class %s) value %d = %s %s: got %s, the property gives %r" %
+                                         (spec["t"], spec["key"], type(b).__name__, i, _show(o), where, _show_obj(g), e))
+            if md is not UNSPEC and ok:
+                gm = b.parser_metadata.get("removed_enclosing", ABSENT)
+                if not (gm is md or (type(gm) is type(md) and gm == md)):
+                    ok, detail = False, ("%s %r (class %s) %s: recorded enclosing %r, the values that were stripped give %r" %
+                                         (spec["t"], spec["key"], type(b).__name__, where, gm, md))
+            if not ok:
+                break
+    if ok and steps[-1] == "a":
+        # written into an entry and re-parsed: one field with the same content (entries whose every value got the default
+        # enclosing and lies in the quantifier of that clause)
+        d = cfg[2]
+        for spec, p, exp, b in zip(inp["lib"], plain, refs, lib.blocks):
+            if spec["t"] != "entry" or exp is None or not spec["fields"]:
+                continue
+            prev = ref_steps(p, steps[:-1], cfg, strings_air) if len(steps) > 1 else ([unjv_plain(f[1]) for f in p["fields"]], None)
+            if prev is None:
+                continue
+            xs = prev[0]
+            keys = [f[0] for f in p["fields"]]
+            if len({k.lower() for k in keys}) != len(keys):
+                continue
+            if not all(isinstance(x, (str, int)) and not isinstance(x, bool) and e is not UNSPEC and
+                       e == ("{%s}" if d == "{" else '"%s"') % (x,) and in_reparse_quantifier(str(x), d)
+                       for x, e in zip(xs, exp[0])):
+                continue
+            tags.append("uc-lib:reparse")
+            one = Library([b])
+            rr = implutil.guarded(lambda: bibtexparser.parse_string(bibtexparser.write_string(one, unparse_stack=[])))
+            good, got = False, None
+            if rr[0] == "ok":
+                bl = rr[1].blocks
+                got = [type(z).__name__ for z in bl]
+                if len(bl) == 1 and type(bl[0]).__name__ == "Entry" and bl[0].key == spec["key"] and bl[0].entry_type == spec["type"]:
+                    got = [(f.key, f.value) for f in bl[0].fields]
+                    good = len(got) == len(keys) and all(same(gk, k) and same(gv, str(x)) for (gk, gv), k, x in zip(got, keys, xs))
+            else:
+                got = "raised " + rr[2]
+            if not good:
+                kn = [known_class(str(x), d) for x in xs]
+                known = next((k for k in kn if k), None)
+                ok = False
+                detail = "%s %r (class %s) with values %s enclosed with default %r %s does not re-parse as the same fields: %r" % (
+                    spec["t"], spec["key"], type(b).__name__, [_show(f[1]) for f in spec["fields"]], d, where, got)
+                tags.append("uc-lib:reparse-fail:" + (known or "UNKNOWN"))
+                break
+    rec["oracle"] = {"ok": ok, "detail": detail}
+    if known:
+        rec["oracle"]["known"] = known
+    rec["tags"] = tags + ["uc-lib:ok"]
+    rec["summary"] = repr([(type(z).__name__, getattr(z, "value", None) if not hasattr(z, "fields") else
+                            [(f.key, f.value) for f in z.fields]) for z in lib.blocks])[:200]
     return rec
